@@ -1,6 +1,6 @@
 SPECIFICATION MCSpec
 CONSTANTS
-  MaxAddr = 1
+  MaxAddr = 2
   MaxVal = 1
   MaxDepth = 3
 VIEW MCView
